@@ -463,6 +463,27 @@ fn carrier(i: usize, fk: &FailKind) -> Carrier {
             events: format!("rs eop:2:0:k0 nf:2 {fe}"),
             builders: (0, 1),
         },
+        15 => Carrier {
+            name: "interp-in-list-in-fold-callback",
+            defs: format!("ff = ||\n{}\ncb = |a, x|\n  [a, \"v{{ff()}}\"]", indent(f, 2)),
+            trigger: "[1, (2, \"z{[1, 2].fold 0, cb}\")]".into(),
+            events: format!("ss ss rs ss se cn:5 enter:1:2:k2 nf:4 ss rs call:4:0 nf:2 {fe} nr:0"),
+            builders: (3, 2),
+        },
+        16 => Carrier {
+            name: "deep-literal-nesting",
+            defs: format!("ff = ||\n{}\ng1 = |x|\n  (x, [x, \"{{x}}-{{ff()}}\"])\ng2 = |x|\n  \"<{{g1 x}}>\"\ng3 = ||\n  [[g2 1], 2]", indent(f, 2)),
+            trigger: "\"top {g3()}\"".into(),
+            events: format!("rs call:3:0 nf:3 ss ss call:4:1 nf:4 rs call:4:1 nf:5 ss ss rs re rs call:5:0 nf:2 {fe}"),
+            builders: (4, 3),
+        },
+        17 => Carrier {
+            name: "generator-inside-interpolation",
+            defs: format!("gen = ||\n  yield 1\n{}", indent(f, 2)),
+            trigger: "[0, \"g={gen().to_tuple()}\"]".into(),
+            events: "ss rs cn:4 nr:1 cn:4 nr:0".into(),
+            builders: (1, 1),
+        },
         _ => Carrier {
             name: "list-in-nested-call",
             defs: format!("ff = ||\n{}\ng1 = |x|\n  [x, ff()]\ng2 = ||\n  (0, g1 5)", indent(f, 2)),
@@ -472,7 +493,7 @@ fn carrier(i: usize, fk: &FailKind) -> Carrier {
         },
     }
 }
-const N_CARRIERS: usize = 16;
+const N_CARRIERS: usize = 19;
 
 /// Effects performed before the failure point (also the whole of the reference script).
 fn effects(rng: &mut Rng, k: usize) -> (String, String) {
@@ -548,7 +569,7 @@ fn gen_run_op(rng: &mut Rng, k: usize, allow_import: bool) -> Op {
                 events: format!("enter:0:0:k0 nf:8 {eff_ev}{}", ca.events),
                 runs_tests: false,
                 expect: "err".into(),
-                err_contains: if ca.name == "generator" || ca.name == "each" || ca.name == "keep" || fk.name != "throw" { None } else { Some(fk.msg.clone()) },
+                err_contains: if ca.name == "generator" || ca.name == "generator-inside-interpolation" || ca.name == "each" || ca.name == "keep" || fk.name != "throw" { None } else { Some(fk.msg.clone()) },
                 ok_value: None,
                 residue_class: if builder { "builder".into() } else { String::new() },
                 adds_tests: 0,
@@ -914,13 +935,52 @@ fn gen_next_op(rng: &mut Rng, lg: &LiveGen) -> Op {
     }
 }
 
+
+/// the callee recovers from an error raised inside its own list literal / interpolation while the
+/// caller is itself building a string and a list (F-C04-4 shape; wrong before fix 97373d1)
+fn gen_recover_op(rng: &mut Rng, k: usize) -> Op {
+    let fk = {
+        let mut fk = fail_kind(rng.below(N_FAIL_KINDS), k);
+        if !fk.catch_ok {
+            fk = fail_kind(0, k);
+        }
+        fk
+    };
+    let (body, expect) = match rng.below(3) {
+        0 => ("\"prefix {g()} suffix\"".to_string(), format!("ok:s{}", kvh::hex(b"prefix recovered suffix"))),
+        1 => (
+            "[10, \"a{g()}b\", [g(), 20]]".to_string(),
+            format!("ok:(l i10 s{} (l s{} i20))", kvh::hex(b"arecoveredb"), kvh::hex(b"recovered")),
+        ),
+        _ => (
+            "x = \"<{size [1, \"{g()}\"]}|{g()}>\"\nx".to_string(),
+            format!("ok:s{}", kvh::hex(b"<2|recovered>")),
+        ),
+    };
+    let inner = if rng.chance(1, 2) { "return \"inner {ff()}\"" } else { "return [7, \"i{ff()}\", 8]" };
+    Op {
+        kind: OpKind::Run,
+        text: format!("ff = ||\n{}\ng = ||\n  try\n    {inner}\n  catch e\n    return 'recovered'\n{body}\n", indent(&fk.stmt, 2)),
+        ref_text: None,
+        args: vec![],
+        events: format!("enter:0:0:k0 nf:8 rs call:3:0 nf:4 ts:1:9 rs call:3:0 nf:2 {} te ret re ret", fk.events),
+        runs_tests: true,
+        expect: "ok".into(),
+        err_contains: None,
+        ok_value: Some(expect),
+        residue_class: String::new(),
+        adds_tests: 0,
+        tags: vec!["callee-recovers-inside-callers-builder".into(), format!("kind={}", fk.name)],
+    }
+}
+
 fn gen_history(rng: &mut Rng, mod_dir: &str, max_native_err: usize) -> History {
     let n = 5 + rng.below(36);
     let mut ops = vec![setup_op()];
     let mut native_err = 0;
     let mut live: Vec<LiveGen> = vec![];
     for k in 1..=n {
-        let op = match rng.weighted(&[52, 26, 8, 7, if live.is_empty() { 0 } else { 7 }]) {
+        let op = match rng.weighted(&[48, 24, 8, 7, if live.is_empty() { 0 } else { 7 }, 6]) {
             0 => gen_run_op(rng, k, true),
             1 => gen_call_op(rng, k),
             2 => gen_tostring_op(rng, k),
@@ -932,10 +992,11 @@ fn gen_history(rng: &mut Rng, mod_dir: &str, max_native_err: usize) -> History {
                 }
                 gen_generator_op(k, rng.below(3), &fk.stmt, fk.name, rng.below(4), caught, &mut live)
             }
-            _ => {
+            4 => {
                 let lg = live[rng.below(live.len())].clone();
                 gen_next_op(rng, &lg)
             }
+            _ => gen_recover_op(rng, k),
         };
         // generation filter (F-C07-1): keep the accumulated register residue far from the u8 wrap
         // (only relevant while F-C07-1 is open; `max_native_err` is usize::MAX once it is fixed)
@@ -1134,6 +1195,7 @@ fn check_history(
                 }
             }
             if d_seq != 0 || d_str != 0 {
+                // F-C07-2 (fixed by 97373d1) explains builder residue only while it is listed as open
                 let class_ok = op.residue_class == "builder" && known.f2 && d_seq >= 0 && d_str >= 0;
                 if class_ok {
                     *attributed.entry("F-C07-2".into()).or_insert(0) += 1;
@@ -1539,9 +1601,9 @@ fn witness_f2() -> (bool, String) {
     let a = k.verif_stack_sizes();
     let _ = k.compile_and_run("f = ||\n  throw 'x'\nr = try\n  \"a{f()}\"\ncatch e\n  0\nr");
     let b = k.verif_stack_sizes();
-    // behavioural consequence (F-C04-4): the callee recovers, the caller's literal is corrupted
+    // behavioural consequence (F-C04-4): the callee recovers; the caller's string must be its own
     let c = run_script(&mut k, "ff = ||\n  throw 'y'\ng = ||\n  try\n    return \"inner {ff()}\"\n  catch e\n    return 'recovered'\n\"prefix {g()} suffix\"", "/nonexistent");
-    (a.2 == 1 && b.3 == 1, format!("after uncaught error in [1, f()]: {:?}; after caught error in an interpolation: {:?}; \"prefix {{g()}} suffix\" with g recovering from an error inside its own interpolation = {}", a, b, c))
+    (a != (0, 0, 0, 0, 0) || b != (0, 0, 0, 0, 0) || c != format!("ok:s{}", kvh::hex(b"prefix recovered suffix")), format!("after uncaught error in [1, f()]: {:?}; after caught error in an interpolation: {:?}; \"prefix {{g()}} suffix\" with g recovering from an error inside its own interpolation = {}", a, b, c))
 }
 
 fn main() {
@@ -1693,6 +1755,16 @@ fn main() {
         }
         let h = History { ops, limit_ms: 0, mod_dir: mod_dir_s.clone() };
         cx.run_history(&h, false, "sweep:imports");
+    }
+
+    // 1z. callee recovers inside the caller's builders: 40 instances
+    {
+        let mut ops = vec![setup_op()];
+        for k in 0..40 {
+            ops.push(gen_recover_op(&mut rng, 700 + k));
+        }
+        let h = History { ops, limit_ms: 0, mod_dir: mod_dir_s.clone() };
+        cx.run_history(&h, false, "sweep:callee-recovers-inside-callers-builder");
     }
 
     // 1a. generators that outlive their failure: storage x failure kind x resumption x caught
